@@ -62,6 +62,10 @@ type Op struct {
 	// "!body" (malformed reply) or "!nan" (not a number)
 	Pair string `json:"pair,omitempty"`
 	Rate string `json:"rate,omitempty"`
+
+	// expcont: the chain restarted from the exported genesis runs a binary without the foreign module (its callbacks are
+	// not registered); from then on the executor ignores "mod" ops — there is no such module to act
+	NoForeign bool `json:"no_foreign,omitempty"`
 }
 
 // TxOp is one transaction: all msgs signed by Sender.
